@@ -54,6 +54,15 @@ class Flow:
                 ty = facts.ty(body["locals"][al]["t"])
                 if ty.startswith("&mut ") and not a["p"].get("pr"):
                     tgt = self.deref_root(al)
+                    # &mut obtained through deref_mut / as_mut / index_mut of another local
+                    hops = 0
+                    while hops < 3:
+                        ds = self.defs.get(tgt, [])
+                        if len(ds) == 1 and ds[0][0] == "call" and ds[0][3].get("fn", "").split("::")[-1] in ("deref_mut", "as_mut", "as_mut_slice", "index_mut", "borrow_mut", "iter_mut") and ds[0][3]["args"] and "p" in ds[0][3]["args"][0]:
+                            tgt = self.deref_root(ds[0][3]["args"][0]["p"]["l"])
+                            hops += 1
+                        else:
+                            break
                     if tgt is not None and tgt != al:
                         self.defs.setdefault(tgt, []).append(("mutcall", bi, None, t, {"l": tgt}))
 
